@@ -213,7 +213,7 @@ def e_ListComp(self, st, node):
                     acc = nxt
                 return [(s1, "val", s1.alloc(HObj("list", kind="list", items=items))) for (s1, items) in acc]
     ref = st.alloc(HObj("list", kind="list", items=None))
-    st.obj(ref).base = "comp@%s" % getattr(node, "lineno", 0)
+    st.wobj(ref).base = "comp@%s" % getattr(node, "lineno", 0)
     return [(st, "val", ref)]
 
 
@@ -649,6 +649,7 @@ def get_attr(self, st, base, attr, node, default=KeyError):
             if dom == "bool":
                 dom = (False, True)
             v = Top(tag, True, dom, ("field", base.oid, attr))
+            o = st.wobj(base)
             o.fields[attr] = v
             if dom is not None:
                 return [(s2, "val", c) for (s2, c) in self.concretize(st, v, node)]
@@ -835,6 +836,9 @@ def get_item(self, st, base, idx, node):
             m = o.cls.lookup("__getitem__")
             if m is not None:
                 return self.call_function(st, m, [idx], {}, node, self_val=base)
+        key = (o.clsname() or "") + ".__getitem__"
+        if key in self.stubs:
+            return self.stubs[key](self, st, [base, idx], {}, node)
         return [(st, "val", Top("obj[]", o.open))]
     if isinstance(base, (tuple, str)):
         if isinstance(idx, int) and not isinstance(idx, bool):
